@@ -18,6 +18,7 @@ import (
 	"os"
 	"strconv"
 	"strings"
+	"sync"
 	"testing"
 	"time"
 
@@ -88,6 +89,9 @@ func TestMain(m *testing.M) {
 	glue.SilenceKlog()
 	pool, _ = glue.NewPoolArgs()
 	if rp := ev.LoadReplay(); rp != nil {
+		if rp.Phase == "arrival_loop" {
+			ev.RunReplay(rp, runLoop)
+		}
 		ev.RunReplay(rp, func(c Case) *ev.Failure { return runCase(c, nil) })
 	}
 	rec = ev.New("C20", "histories of {arrival of a generated template or data message (1..3 records of 1..6 fields of any of the 18 types, unique sequence number as marker), burst of up to 5000 arrivals, GET /records with count in {absent, 0, 1, n, > stored, negative, non-numeric} x format in {absent, json, text, other}, POST /reset, wrong methods} driven in-package with httptest against a model (slice trimmed to the last 4096); every arrival's rendered entry is checked for every field name and value; non-trivial = the history passed the cap or contains a query after >= 2 arrivals; distinct by hash of the case",
@@ -502,7 +506,88 @@ func runRecorded(phase string, c Case) *ev.Failure {
 	return f
 }
 
+// runLoop: messages travel the way they do in the running binary - through the channel that the
+// collector's own loop (signalHandler) reads - instead of being handed to addIPFIXMessage by the
+// harness: Pairs times an expensive message (Big records) directly followed by a cheap one. The
+// store must hold them in the order they were sent.
+type LoopCase struct {
+	Pairs int `json:"pairs"`
+	Big   int `json:"big"`
+}
+
+var (
+	loopOnce sync.Once
+	loopCh   chan *entities.Message
+)
+
+func runLoop(c LoopCase) *ev.Failure {
+	loopOnce.Do(func() {
+		loopCh = make(chan *entities.Message)
+		go signalHandler(make(chan struct{}), loopCh) // runs until the process ends, as in the binary
+	})
+	mutex.Lock()
+	flowRecords = nil
+	mutex.Unlock()
+	fields := []ref.Field{glue.UserField(ref.TU32), glue.UserField(ref.TString), glue.UserField(ref.TU64), glue.UserField(ref.TIPv4)}
+	mk := func(n int) Op {
+		o := Op{Kind: "msg", Fields: fields}
+		for k := 0; k < n; k++ {
+			o.Recs = append(o.Recs, []ref.Value{{U: uint64(k)}, {B: []byte("a-string-value-of-some-length")}, {U: uint64(k) << 20}, {B: []byte{10, 0, byte(k >> 8), byte(k)}}})
+		}
+		return o
+	}
+	big, small := mk(c.Big), mk(1)
+	total := 2 * c.Pairs
+	for k := 0; k < c.Pairs; k++ {
+		for j, o := range []Op{big, small} {
+			select {
+			case loopCh <- message(uint32(1+2*k+j), o):
+			case <-time.After(30 * time.Second):
+				return ev.Failf("arrival loop: the collector's loop did not take message %d within 30 s", 1+2*k+j)
+			}
+		}
+	}
+	for end := time.Now().Add(30 * time.Second); ; time.Sleep(time.Millisecond) {
+		mutex.Lock()
+		n := len(flowRecords)
+		mutex.Unlock()
+		if n >= total {
+			break
+		}
+		if time.Now().After(end) {
+			return ev.Failf("arrival loop: %d messages went through the collector's loop, the store holds %d after 30 s", total, n)
+		}
+	}
+	time.Sleep(20 * time.Millisecond)
+	mutex.Lock()
+	defer mutex.Unlock()
+	if len(flowRecords) != total {
+		return ev.Failf("arrival loop: %d messages went through the collector's loop, the store holds %d", total, len(flowRecords))
+	}
+	for k, e := range flowRecords {
+		if !strings.Contains(e, marker(uint32(k+1))) {
+			got := "?"
+			for q := 1; q <= total; q++ {
+				if strings.Contains(e, marker(uint32(q))) {
+					got = fmt.Sprint(q)
+				}
+			}
+			return ev.Failf("arrival loop: entry %d of the store is the rendering of message %s, the messages arrived in the order 1..%d (a message of %d records is directly followed by one of 1 record)", k, got, total, c.Big)
+		}
+	}
+	return nil
+}
+
 func TestC20(t *testing.T) {
+	// every run: messages through the collector's own loop
+	for _, lc := range []LoopCase{{Pairs: 12, Big: 600}, {Pairs: 40, Big: 60}} {
+		f := runLoop(lc)
+		rec.Case(ev.Hash(lc), true, "through_the_collectors_loop")
+		if f != nil {
+			rec.Violation("arrival_loop", lc, f.Msg)
+			t.Fatalf("%s", f.Msg)
+		}
+	}
 	// every run: a history that passes the cap three times, with queries at the boundaries
 	pre := Case{}
 	for k := 0; k < 3; k++ {
